@@ -14,11 +14,17 @@ sh(f"git -C /repo worktree remove --force {WT}")
 rc, out = sh(f"git -C /repo worktree add -q --detach {WT} HEAD")
 head = sh("git -C /repo rev-parse --short HEAD")[1].strip()
 results = {}
+try:
+    results = json.load(open("/verif/seeded/confirmation.json"))
+except Exception:
+    results = {}
 only = sys.argv[1:]
 for pid in sorted(os.listdir("/verif/seeded_pending")):
     for m in sorted(os.listdir(f"/verif/seeded_pending/{pid}")):
         d = f"/verif/seeded_pending/{pid}/{m}"
         if not os.path.isdir(d) or (only and pid not in only):
+            continue
+        if results.get(f"{pid}/{m}") == "confirmed" and os.path.isdir(f"/verif/seeded/{pid}-{m}"):
             continue
         meta = json.load(open(f"{d}/meta.json"))
         tgt = meta.get("demo_target_dir", ".") or "."
